@@ -10,7 +10,7 @@ import vlib, e2e, sync_e2e
 from sync_e2e import T0
 
 THEOREMS = ['C01_mirror', 'C01_mirror_executable', 'C01_link_text', 'C01_utf8_text_is_in_domain', 'C01_table', 'C01_mirror_unconditional', 'C01_mirror_walked', 'C01_walked_listing_exists',
-            'C01_spec_each_sync_mirrors', 'C01_spec_final_trees', 'C01_spec_stores_well_formed', 'C01_mirror_keeps_times_set']
+            'C01_spec_each_sync_mirrors', 'C01_spec_final_trees', 'C01_spec_stores_well_formed', 'C01_mirror_keeps_times_set', 'C01_spec_chain_mirrors', 'C01_run_keeps_links_utf8']
 
 
 def components(text):
